@@ -35,22 +35,25 @@ Fixpoint dedup (l : list str) : list str :=
   | x :: r => if mem_str x r then dedup r else x :: dedup r
   end.
 
-(* a colon outside string quotes in a repr: the mark of a dict display *)
-Fixpoint unquoted_colon (s : str) (q : option ascii) : bool :=
+(* does one of the characters [cs] occur outside string quotes in a repr? *)
+Fixpoint unquoted_mem (cs : str) (s : str) (q : option ascii) : bool :=
   match s with
   | [] => false
   | c :: r =>
     match q with
     | Some qc =>
-      if ascii_eqb c (ch 92) then (match r with [] => false | _ :: r' => unquoted_colon r' q end)
-      else if ascii_eqb c qc then unquoted_colon r None
-      else unquoted_colon r q
+      if ascii_eqb c (ch 92) then (match r with [] => false | _ :: r' => unquoted_mem cs r' q end)
+      else if ascii_eqb c qc then unquoted_mem cs r None
+      else unquoted_mem cs r q
     | None =>
-      if ascii_eqb c (ch 58) then true
-      else if ascii_eqb c sq || ascii_eqb c dq then unquoted_colon r (Some c)
-      else unquoted_colon r None
+      if mem_c c cs then true
+      else if ascii_eqb c sq || ascii_eqb c dq then unquoted_mem cs r (Some c)
+      else unquoted_mem cs r None
     end
   end.
+
+(* a colon outside quotes: the mark of a dict display *)
+Definition unquoted_colon (s : str) (q : option ascii) : bool := unquoted_mem [ch 58] s q.
 
 (* is the Python object behind a DO (carried by its repr) accepted by `x in frozenset(...)`?
    (a set is: it is looked up as a frozenset.)  None = the model declines *)
@@ -61,9 +64,9 @@ Definition do_hashable (r : str) : option bool :=
     else if ascii_eqb c (ch 123) then
       Some (negb (str_eqb r (L "{}") || unquoted_colon r None))                 (* dict : set display *)
     else if startswith (L "bytearray(") r then Some false
-    else if ascii_eqb c (ch 40) then
-      (if contains [ch 91] r || contains [ch 123] r || contains (L "set(") r || contains (L "bytearray(") r
-       then None else Some true)                                                (* tuple *)
+    else if ascii_eqb c (ch 40) then                                            (* tuple *)
+      (if contains (L "set(") r || contains (L "bytearray(") r then None
+       else Some (negb (unquoted_mem [ch 91; ch 123] r None)))
     else if startswith (L "b'") r || startswith [ch 98; ch 34] r || str_eqb r (L "Ellipsis")
             || endswith (L "j") r || startswith (L "frozenset(") r || str_eqb r (L "set()")
     then Some true
